@@ -265,6 +265,58 @@ func concBody(x *Exec, raw json.RawMessage) {
 			}
 		}
 	}
+	if has(p.Oracles, "swept") && p.Cfg.Expiry != "" {
+		// the post ops moved the clock more than one tick past every deadline and ran CleanUp
+		if es := c.EstimatedSize(); es != len(contents) {
+			x.Fail("timer-not-swept", "CleanUp@"+p.Label, "after CleanUp at clock %d EstimatedSize() = %d but only %d entries are live: an expired entry whose deadline lies more than one tick in the past was not swept", r.Clock.now, es, len(contents))
+		}
+		for v, k := range r.Installs {
+			if cv, ok := contents[k]; ok && cv == v {
+				continue
+			}
+			found := false
+			for _, e := range r.Events {
+				if e.Val == v {
+					found = true
+				}
+			}
+			installed := false
+			for _, e := range r.Atomic {
+				if e.Val == v {
+					installed = true
+				}
+			}
+			if installed && !found {
+				x.Fail("event-missing", "OnDeletion@"+p.Label, "value %d of key %d was removed but its deletion event was not delivered after CleanUp", v, k)
+			}
+		}
+		x.Count("swept-checked")
+	}
+	if has(p.Oracles, "refresh-readers") {
+		for _, lc := range r.Loads {
+			if lc.Kind != "reload" || len(lc.Olds) == 0 {
+				continue
+			}
+			for _, rs := range recs {
+				for _, rc := range rs {
+					f := opFields(rc.op)
+					if (f[0] != "get" && f[0] != "load") || atoi(f[1]) != lc.Keys[0] {
+						continue
+					}
+					if rc.ret < lc.Exit && rc.call > lc.Enter {
+						x.Count("reads-during-reload")
+						if !rc.res.OK || rc.res.Val != lc.Olds[0] {
+							x.Fail("read-during-reload", opName(rc.op)+"@"+p.Label, "%q ran entirely while the reload of key %d was inside its loader and returned (%d,%v) instead of the old value %d", rc.op, lc.Keys[0], rc.res.Val, rc.res.OK, lc.Olds[0])
+						}
+					}
+					// the read that triggered the reload returns the value cached at that moment
+					if f[0] == "load" && rc.tid == lc.Thread && rc.call < lc.Enter && lc.Exit < rc.ret && (!rc.res.OK || rc.res.Val != lc.Olds[0]) {
+						x.Fail("stale-read-returned-reloaded", opName(rc.op)+"@"+p.Label, "%q triggered the reload and returned (%d,%v) instead of the cached value %d", rc.op, rc.res.Val, rc.res.OK, lc.Olds[0])
+					}
+				}
+			}
+		}
+	}
 	if has(p.Oracles, "noclobber") {
 		checkNoClobber(x, r, p, recs, contents)
 	}
